@@ -25,6 +25,11 @@ using Str = std::basic_string<Ch>;
 using SV  = std::basic_string_view<Ch>;
 using EV  = etl::basic_string_view<Ch>;
 constexpr auto NPOS = static_cast<std::size_t>(-1);
+#if defined(TETL_ENABLE_CONTRACT_CHECKS)
+constexpr bool kChecksOff = false;
+#else
+constexpr bool kChecksOff = true; // contract checks compiled out: the appends built on push_back clamp instead of firing its precondition
+#endif
 constexpr std::size_t kCaps[] = {VF_CAPS};
 constexpr std::size_t kNCaps  = sizeof(kCaps) / sizeof(kCaps[0]);
 
@@ -154,6 +159,15 @@ struct Env {
 
     // --- state comparison -------------------------------------------------
     Str contents() const { return Str(e.data(), e.size() <= N ? e.size() : N); }
+    // the two invariants alone, for a result object of a clamping operation
+    static void check_inv(E const& x)
+    {
+        if (x.size() > x.capacity()) {
+            vf::diverge("result-invariant:size>capacity", vf::to_su(x.size()), vf::to_su(N));
+        } else if (x.data()[x.size()] != Ch(0)) {
+            vf::diverge("result-invariant:no-terminator-at-size", "data()[size()] != 0", "null character");
+        }
+    }
     void check_state(bool compare_contents = true)
     {
         bool ok = true;
@@ -540,8 +554,12 @@ struct Env {
             COVER("append(ptr,count)", vf::mix(h, cnt));
             break;
         }
-        case 5: { // append(first,last) -> push_back per element (pre: fits)
-            if (t.size() > room) { return; }
+        case 5: { // append(first,last) -> push_back per element: with contract checks on its precondition fires when the range does not fit;
+                  // with the checks compiled out the call clamps like the other appends (then only the invariants are demanded)
+            if (t.size() > room) {
+                if (!kChecksOff) { return; }
+                clamped = true;
+            }
             CRUMB("append(first,last)", sit(fitcls(t.size())), "m=%s s=%s", show(m).c_str(), show(t).c_str());
             e.append(a.ptr(), a.ptr() + a.len());
             m.append(a.ptr(), a.ptr() + a.len());
@@ -549,7 +567,11 @@ struct Env {
             break;
         }
         case 6: { // append(string)
-            if (t.size() > N || t.size() > room) { return; }
+            if (t.size() > N) { return; }
+            if (t.size() > room) {
+                if (!kChecksOff) { return; }
+                clamped = true;
+            }
             E src = mk(t);
             CRUMB("append(string)", sit(fitcls(t.size())), "m=%s s=%s", show(m).c_str(), show(t).c_str());
             e.append(src);
@@ -562,7 +584,10 @@ struct Env {
             std::size_t pos = draw_pos(t.size());
             std::size_t cnt = draw_count(t.size());
             Str sub         = t.substr(pos, cnt);
-            if (sub.size() > room) { return; }
+            if (sub.size() > room) {
+                if (!kChecksOff) { return; }
+                clamped = true;
+            }
             E src            = mk(t);
             bool use_default = cnt == NPOS && ch.flag();
             CRUMB("append(string,pos,count)", sit(fitcls(sub.size()), poscls(pos, t.size())), "m=%s s=%s pos=%zu count=%lld", show(m).c_str(),
@@ -619,7 +644,11 @@ struct Env {
             break;
         }
         default: { // operator+=(string) / (view)
-            if (t.size() > N || t.size() > room) { return; }
+            if (t.size() > N) { return; }
+            if (t.size() > room) {
+                if (!kChecksOff) { return; }
+                clamped = true;
+            }
             bool view = ch.flag();
             E src     = mk(t);
             CRUMB(view ? "operator+=(view)" : "operator+=(string)", sit(fitcls(t.size())), "m=%s s=%s", show(m).c_str(), show(t).c_str());
@@ -987,35 +1016,53 @@ struct Env {
             break;
         }
         case 4: { // operator+(string,string) with the same and another capacity
-            if (t.size() > N || L + t.size() > N) { return; }
+            if (t.size() > N) { return; }
+            bool over = L + t.size() > N;
+            if (over && !kChecksOff) { return; }
             bool other_cap = ch.flag() && t.size() <= N2;
-            CRUMB(other_cap ? "operator+(string,string<N2>)" : "operator+(string,string)", sit(L + t.size() == N ? "fills" : "fits"), "m=%s s=%s", show(m).c_str(),
+            CRUMB(other_cap ? "operator+(string,string<N2>)" : "operator+(string,string)", sit(over ? "clamped" : (L + t.size() == N ? "fills" : "fits")), "m=%s s=%s", show(m).c_str(),
                 show(t).c_str());
             E x = other_cap ? (e + mk2(t)) : (e + mk(t));
             COVER(other_cap ? "operator+(string,string<N2>)" : "operator+(string,string)", h);
             Str r = m + t;
+            if (over) {
+                check_inv(x);
+                break;
+            }
             if (vf::eq_int("size", x.size(), r.size())) { vf::eq_str("contents", show(Str(x.data(), x.size())), show(r)); }
             break;
         }
         case 5: { // operator+(string,ptr) / (ptr,string)
-            if (L + a.zlen() > N) { return; }
+            bool over = L + a.zlen() > N;
+            if (over && !kChecksOff) { return; }
             bool rev = ch.flag();
-            CRUMB(rev ? "operator+(ptr,string)" : "operator+(string,ptr)", sit(L + a.zlen() == N ? "fills" : "fits"), "m=%s s=%s", show(m).c_str(),
+            if (rev && a.zlen() > N) { return; } // the left operand alone must fit (constructor precondition)
+            CRUMB(rev ? "operator+(ptr,string)" : "operator+(string,ptr)", sit(over ? "clamped" : (L + a.zlen() == N ? "fills" : "fits")), "m=%s s=%s", show(m).c_str(),
                 show(t).c_str());
             E x = rev ? (a.ptr() + e) : (e + a.ptr());
             COVER(rev ? "operator+(ptr,string)" : "operator+(string,ptr)", h);
             Str r = rev ? (a.zstr() + m) : (m + a.zstr());
+            if (over) {
+                check_inv(x);
+                break;
+            }
             if (vf::eq_int("size", x.size(), r.size())) { vf::eq_str("contents", show(Str(x.data(), x.size())), show(r)); }
             break;
         }
         case 6: { // operator+(string,ch) / (ch,string)
-            if (L + 1 > N) { return; }
+            bool over = L + 1 > N;
+            if (over && !kChecksOff) { return; }
             bool rev = ch.flag();
+            if (rev && N == 0) { return; } // the left operand alone must fit (constructor precondition)
             Ch c     = draw_char();
-            CRUMB(rev ? "operator+(ch,string)" : "operator+(string,ch)", sit(L + 1 == N ? "fills" : "fits"), "m=%s ch=%u", show(m).c_str(), (unsigned)c);
+            CRUMB(rev ? "operator+(ch,string)" : "operator+(string,ch)", sit(over ? "clamped" : (L + 1 == N ? "fills" : "fits")), "m=%s ch=%u", show(m).c_str(), (unsigned)c);
             E x = rev ? (c + e) : (e + c);
             COVER(rev ? "operator+(ch,string)" : "operator+(string,ch)", (unsigned)c);
             Str r = rev ? (Str(1, c) + m) : (m + Str(1, c));
+            if (over) {
+                check_inv(x);
+                break;
+            }
             if (vf::eq_int("size", x.size(), r.size())) { vf::eq_str("contents", show(Str(x.data(), x.size())), show(r)); }
             break;
         }
